@@ -28,6 +28,7 @@ import (
 	"math/rand"
 	"os"
 	"path/filepath"
+	"runtime"
 	"sort"
 	"strings"
 	"sync"
@@ -269,6 +270,7 @@ type world struct {
 	adj    []watcher.AdjudicatorSub
 	sub    []*scriptSub
 	stuck  string
+	settle bool // wait after every Publish until the states handler has taken the transaction
 }
 
 func newWorld(r *rand.Rand, n int) *world {
@@ -430,6 +432,21 @@ func (w *world) exec(e event) []output {
 		if w.pubs[e.Ch] != nil {
 			if err := w.pubs[e.Ch].Publish(context.Background(), w.mkTx(e.Ch, e.Tx, false)); err != nil {
 				panic(err)
+			}
+			if w.settle {
+				// condition-based, not time-based: the handler goroutine is always ready to receive
+				deadline := time.Now().Add(stuckAfter)
+				for spins := 0; local.VerifPendingStates(w.pubs[e.Ch]) > 0; spins++ {
+					if spins < 50 {
+						runtime.Gosched()
+					} else {
+						time.Sleep(50 * time.Microsecond)
+					}
+					if time.Now().After(deadline) {
+						w.stuck = fmt.Sprintf("published transaction of channel %d never taken", e.Ch)
+						return nil
+					}
+				}
 			}
 		}
 	case evRegistered, evProgressed, evConcluded:
@@ -1013,11 +1030,13 @@ func (g *gstate) randomEvent(r *rand.Rand, nonmono, allowMulti bool, last *event
 }
 
 type history struct {
-	class string
-	n     int
-	pre   int // index of the set-up prefix (exhaustive classes), else -1
-	evs   []event
-	seed  int64 // concrete-data PRNG
+	class           string
+	n               int
+	pre             int // index of the set-up prefix (exhaustive classes), else -1
+	noise, diverges bool
+	grp             int // exhaustive classes: number of consecutive histories that differ only in the last letter
+	evs             []event
+	seed            int64 // concrete-data PRNG
 	// results
 	outs  [][]output
 	snap  []string
@@ -1122,7 +1141,7 @@ func exhaustive(r *rand.Rand, class string, pi int, alpha []letter, length int) 
 	word := make([]int, length)
 	for {
 		g := newG(3, 0)
-		h := &history{class: class, n: 3, pre: pi, seed: r.Int63()}
+		h := &history{class: class, n: 3, pre: pi, grp: len(alpha), seed: r.Int63()}
 		for _, e := range pre {
 			g.apply(e)
 			h.evs = append(h.evs, e)
@@ -1149,26 +1168,86 @@ func exhaustive(r *rand.Rand, class string, pi int, alpha []letter, length int) 
 
 // ---------- running ----------
 
-func (h *history) run() {
+// observation of one execution of a history
+type observation struct {
+	nev   int
+	outs  [][]output
+	snap  []string
+	bad   []complaint
+	badAt []int
+	stuck string
+}
+
+func (h *history) runOnce(settle bool) observation {
 	w := newWorld(rand.New(rand.NewSource(h.seed)), h.n)
+	w.settle = settle
 	o := newOracle(h.n)
+	ob := observation{nev: len(h.evs)}
 	for i, e := range h.evs {
 		outs := w.exec(e)
 		if w.stuck != "" {
-			h.stuck = fmt.Sprintf("event %d (%s): %s", i, e.term(), w.stuck)
-			h.evs = h.evs[:i]
-			break
+			ob.stuck = fmt.Sprintf("event %d (%s): %s", i, e.term(), w.stuck)
+			ob.nev = i
+			return ob
 		}
-		h.outs = append(h.outs, outs)
+		ob.outs = append(ob.outs, outs)
 		for _, c := range o.check(e, outs) {
-			h.bad = append(h.bad, c)
-			h.badAt = append(h.badAt, i)
+			ob.bad = append(ob.bad, c)
+			ob.badAt = append(ob.badAt, i)
 		}
 	}
-	if h.stuck == "" {
-		h.snap = w.snapshot()
-		w.cleanup()
+	ob.snap = w.snapshot()
+	w.cleanup()
+	return ob
+}
+
+func (h *history) adopt(ob observation) {
+	h.evs = h.evs[:ob.nev]
+	h.outs, h.snap, h.bad, h.badAt, h.stuck = ob.outs, ob.snap, ob.bad, ob.badAt, ob.stuck
+}
+
+func (ob observation) key(h *history) string {
+	c := *h
+	c.adopt(ob)
+	return c.term() + "|" + ob.stuck
+}
+
+// run executes the history twice: "drain" (publishes are left in the pub-sub buffer, the watcher drains
+// them when the next retrieve comes: readPendingTxs) and "settled" (the harness waits, through the verif
+// hook, until the states handler has taken every published transaction). Both must give the same
+// observations. readPendingTxs decides with a 1 ms timer when the buffer is drained; if the handler
+// goroutine is descheduled for more than 1 ms at the wrong instant the drain can stop early -- that
+// window is outside the model (DESIGN: partial). So a difference counts only when at least two of three
+// drain runs differ from the settled run; otherwise it is scheduling noise, the settled observation is used and the history is
+// counted in the warnings.
+func (h *history) run() {
+	a := h.runOnce(false)
+	if a.stuck != "" {
+		h.adopt(a)
+		return
 	}
+	b := h.runOnce(true)
+	if b.stuck != "" || a.key(h) == b.key(h) {
+		h.adopt(a)
+		if b.stuck != "" {
+			h.adopt(b)
+		}
+		return
+	}
+	// two more drain runs: scheduling noise (probability ~1e-5 per retrieve) does not strike twice
+	differing := 1
+	for k := 0; k < 2; k++ {
+		if x := h.runOnce(false); x.stuck != "" || x.key(h) != b.key(h) {
+			differing++
+		}
+	}
+	if differing >= 2 {
+		h.adopt(a) // the drain path really behaves differently from the settled path
+		h.diverges = true
+		return
+	}
+	h.noise = true
+	h.adopt(b)
 }
 
 // prefixTerms are the set-up prefixes with their (deterministic) observations as defined in
@@ -1279,7 +1358,6 @@ func outcomeOf(h *history) (string, string) {
 	return fmt.Sprintf("register=%s,relay=%s,refused=%s,errors=%s", b(reg), b(relay), b(refused), b(fails)),
 		fmt.Sprintf("%d/%d/%d/%d", reg, relay, refused, fails)
 }
-
 
 // ---------- concurrent part: schedule-independent oracle ----------
 
@@ -1512,12 +1590,31 @@ func Run(seed int64, tier, out string) {
 	res.PerFile = 0
 	runAll(hs, 64)
 
+	// cases: one history each; in the thorough tier the exhaustive words that differ only in the last
+	// letter form one case (Coq cannot print unary case indices beyond a few ten thousands)
+	var groups [][]int
+	for i := 0; i < len(hs); {
+		k := 1
+		if tier == "thorough" && hs[i].grp > 1 {
+			k = hs[i].grp
+		}
+		var g []int
+		for j := i; j < i+k && j < len(hs); j++ {
+			g = append(g, j)
+		}
+		groups = append(groups, g)
+		i += len(g)
+	}
 	w := &fileWriter{dir: out}
-	terms := make([]string, len(hs))
+	terms := make([]string, len(groups))
 	total := 0
-	for i, h := range hs {
-		terms[i] = h.term()
-		total += len(terms[i])
+	for gi, g := range groups {
+		ts := make([]string, len(g))
+		for k, i := range g {
+			ts[k] = hs[i].term()
+		}
+		terms[gi] = hx.List(ts)
+		total += len(terms[gi])
 	}
 	// 16 shards (one per core), but never less than 20 KB or more than 1 MB of case text per file
 	shard := total/16 + 1
@@ -1529,27 +1626,30 @@ func Run(seed int64, tier, out string) {
 	}
 	var cur []string
 	curBytes := 0
-	for i, h := range hs {
-		if h.stuck != "" {
-			res.Fail(hx.Failure{Site: "local.Watcher", InputClass: "stuck", What: h.stuck, Case: i, Replay: h.replay()})
-		}
-		cur = append(cur, terms[i])
-		curBytes += len(terms[i])
-		res.CaseIndex = append(res.CaseIndex, h.class)
-		oc, key := outcomeOf(h)
-		shape := make([]byte, len(h.evs))
-		for j, e := range h.evs {
-			shape[j] = "prgcLSXf"[e.K]
-		}
-		res.Count(h.class, oc, h.class+"/"+string(shape)+"/"+key, strings.HasPrefix(oc, "register=0,relay=0,refused=0"))
-		if len(res.Samples) < 6 && len(h.evs) <= 12 && !strings.HasPrefix(oc, "register=0") {
-			res.Sample(h.replay())
-		}
-		oracleApplies := h.class != "nonmono" && h.class != "multi"
-		if oracleApplies {
-			for k, c := range h.bad {
-				res.Fail(hx.Failure{Site: c.site, InputClass: c.class, Case: i,
-					What: fmt.Sprintf("event %d (%s): %s", h.badAt[k], h.evs[h.badAt[k]].term(), c.what), Replay: h.replay()})
+	for gi, g := range groups {
+		cur = append(cur, terms[gi])
+		curBytes += len(terms[gi])
+		res.CaseIndex = append(res.CaseIndex, hs[g[0]].class)
+		for _, i := range g {
+			h := hs[i]
+			if h.stuck != "" {
+				res.Fail(hx.Failure{Site: "local.Watcher", InputClass: "stuck", What: h.stuck, Case: gi, Replay: h.replay()})
+			}
+			oc, key := outcomeOf(h)
+			shape := make([]byte, len(h.evs))
+			for j, e := range h.evs {
+				shape[j] = "prgcLSXf"[e.K]
+			}
+			res.Count(h.class, oc, h.class+"/"+string(shape)+"/"+key, strings.HasPrefix(oc, "register=0,relay=0,refused=0"))
+			if len(res.Samples) < 6 && len(h.evs) <= 12 && !strings.HasPrefix(oc, "register=0") {
+				res.Sample(h.replay())
+			}
+			oracleApplies := h.class != "nonmono" && h.class != "multi"
+			if oracleApplies {
+				for k, c := range h.bad {
+					res.Fail(hx.Failure{Site: c.site, InputClass: c.class, Case: gi,
+						What: fmt.Sprintf("event %d (%s): %s", h.badAt[k], h.evs[h.badAt[k]].term(), c.what), Replay: h.replay()})
+				}
 			}
 		}
 		if curBytes >= shard {
@@ -1558,6 +1658,21 @@ func Run(seed int64, tier, out string) {
 		}
 	}
 	w.write(cur)
+	noise, div := 0, 0
+	for _, h := range hs {
+		if h.noise {
+			noise++
+		}
+		if h.diverges {
+			div++
+		}
+	}
+	if noise > 0 {
+		res.Warnings = append(res.Warnings, fmt.Sprintf("%d histories: the drain run differed once from the settled run and did not reproduce (1 ms drain window hit by scheduling); settled observation used", noise))
+	}
+	if div > 0 {
+		res.Warnings = append(res.Warnings, fmt.Sprintf("%d histories: drain run and settled run differ reproducibly; drain observation reported", div))
+	}
 	nconc := 80
 	if tier == "thorough" {
 		nconc = 3000
